@@ -253,8 +253,10 @@ def run(ctx):
         have = {}
         for d, vals, other, excl, _b in conds:
             if d[0] == "bin" and strip_site(d[2]) == strip_site(T):
-                have[(d[1], fmt(d[3]))] = 0 if 0 in vals else 1
-        okg = any(op == "Gt" and tr == 0 for (op, a), tr in have.items()) and any(op == "Lt" and tr == 0 and a == "0" for (op, a), tr in have.items())
+                have[(d[1], "current" if dec_field(d[3], "resolution") else fmt(d[3]))] = 0 if 0 in vals else 1
+        # target <= current: !(target > current), or the stronger target < current / target == current of a three-way match
+        le_cur = any(a == "current" and ((op == "Gt" and tr == 0) or (op in ("Lt", "Le", "Eq") and tr == 1)) for (op, a), tr in have.items())
+        okg = le_cur and any(op == "Lt" and tr == 0 and a == "0" for (op, a), tr in have.items())
         run.inst("C07.T5", "parent-range-guards", okg, "serialize reached only when !(target > current) and !(target < 0): %s" % have, where(c.span))
     # ------------------------------------------------ res0
     fr = fn_terms(facts, RES0)
